@@ -170,14 +170,14 @@ def ciNamesOf {V : Type} (fields : List (Key × PField V)) : List Key :=
   fields.flatMap fun kf => if kf.2.ci then kf.2.allAliases else []
 
 /-- `apply_fields` (field.py:702-727): dependencies resolved through the alias map to the *output name*
-of the target field (after fixes/C05-dependency-name.patch; before it, the key in `fields`). -/
-def resolveDeps {V : Type} (byKey : Bool) (fields : List (Key × PField V)) (amap : List (Key × Key))
+of the target field (after fixes/C05-dependency-name.patch; before it the key in `fields` was kept, which
+for a case-insensitive field is the lower-cased name and never matched the parsed result). -/
+def resolveDeps {V : Type} (fields : List (Key × PField V)) (amap : List (Key × Key))
     (deps : List Key) : List Key :=
   deps.foldl (fun acc dep =>
     let key := (dget dep amap).getD dep
     match dget key fields with
-    | some f => let n := if byKey then key else f.name
-                if acc.contains n then acc else acc ++ [n]
+    | some f => if acc.contains f.name then acc else acc ++ [f.name]
     | none => acc) []
 
 /-- `assign_search_strategy` (base.py:170-184). -/
@@ -192,12 +192,12 @@ structure ClassDecl (V : Type) where
   additionTyped : Bool := false
   deriving Repr
 
-def mkParser {V : Type} (W : World V) (depsByKey : Bool) (c : ClassDecl V) : Parser V :=
+def mkParser {V : Type} (W : World V) (c : ClassDecl V) : Parser V :=
   let o := c.opts.normalise
   let fs := c.fields.map fun d => let f := mkField W o d; (fieldKey W f, f)
   let amap := aliasMapOf fs
   let cin := ciNamesOf fs
-  let fs' := fs.map fun kf => (kf.1, { kf.2 with deps := resolveDeps depsByKey fs amap kf.2.deps })
+  let fs' := fs.map fun kf => (kf.1, { kf.2 with deps := resolveDeps fs amap kf.2.deps })
   { fields := fs', aliasMap := amap, ciNames := cin, additionTyped := c.additionTyped
     dataFirst := assignStrategy o cin amap
     depsOk := fs.all fun kf => kf.2.deps.all fun dep => dhas ((dget dep amap).getD dep) fs }
@@ -225,7 +225,6 @@ fixes/C05-mode-string-flags.patch (a mode string that does not contain the curre
 to the field's own `mode`); `false` is the code before (returns False at once). -/
 structure Legacy where
   modeStringReturns : Bool := false      -- field.py is_no_input / is_no_output before the fix
-  depsByKey : Bool := false              -- apply_fields before the fix
   predSkipsMode : Bool := false          -- always_no_input before the fix: a callable no_input returned False at once
   deriving Repr, DecidableEq
 
@@ -544,7 +543,7 @@ def finish {V : Type} (L : Legacy) (W : World V) (P : Parser V) (o : Opts V) (st
 (options.py:251-258), the parser was set up with the class's. -/
 def initSchema {V : Type} [DecidableEq V] (L : Legacy) (W : World V) (c : ClassDecl V)
     (runtime : Option (Opts V)) (data : List (Key × V)) : Outcome V :=
-  let P := mkParser W L.depsByKey c
+  let P := mkParser W c
   let o := (runtime.getD c.opts).normalise
   finish L W P o (parseData L W P o data)
 
